@@ -487,6 +487,48 @@ def find_closures(toks):
     return res
 
 
+
+def annotate_closure(blk, key, ca, src, toks_b, s_i, po, pc, bs, be, name, MARK):
+    """R18 replacement text for one closure (see emit_fn)"""
+    cbody = src[toks_b[bs].start:toks_b[be].end]
+    cparams = src[toks_b[po].end:toks_b[pc].start] if pc > po else ""
+    real_pats = split_top(cparams)
+    decl = split_top(ca.get("params", ""))
+    if len(real_pats) != len(decl):
+        raise ExtractError(f"lost anchor: closure {key} of {name} has {len(real_pats)} parameters, contract {len(decl)}")
+    binds = ""
+    for pat, d in zip(real_pats, decl):
+        dn = d.split(":")[0].strip()
+        pn = pat.split(":")[0].strip() if not pat.strip().startswith("(") else pat.strip()
+        if pn != dn:
+            binds += f"let {pn} = {dn}; "
+    mv = "move " if toks_b[s_i].text == "move" else ""
+    spec = MARK.format(f"closure {key} spec") if f"closure {key} spec" in blk.sections else ""
+    if f"at closure {key} first" in blk.sections:
+        binds = MARK.format(f"at closure {key} first") + binds
+    return f"{mv}|{ca.get('params', '')}| -> {ca['ret']} {spec} {{ {binds}{cbody} }}"
+
+
+def apply_nested_annotations(blk, k, cbody, name, MARK):
+    """closures inside the body of converted closure k, addressed as `k.j` (j-th closure inside, source order)"""
+    nested = sorted(key for key in blk.closures if isinstance(key, str) and key.startswith(f"{k}."))
+    if not nested:
+        return cbody
+    toks_c = tokenize(cbody)
+    inner = toks_c[1:-1] if toks_c and toks_c[0].text == "{" else toks_c
+    base = 1 if toks_c and toks_c[0].text == "{" else 0
+    cls = find_closures(inner)
+    edits = []
+    for key in nested:
+        j = int(key.split(".")[1])
+        if j > len(cls):
+            raise ExtractError(f"lost anchor: contract of {name} annotates closure {key}, only {len(cls)} closures inside closure {k}")
+        (s_i, po, pc, bs, be) = cls[j - 1]
+        rep = annotate_closure(blk, key, blk.closures[key], cbody, inner, s_i, po, pc, bs, be, name, MARK)
+        edits.append((inner[s_i].start, inner[be].end, rep))
+    return apply_edits(cbody, edits)
+
+
 # ----------------------------------------------------------------------------- template processing
 class Clause:
     def __init__(self):
@@ -647,7 +689,7 @@ def _process_file(unit, path, inst, top=False):
                         cur = f"at {rest.strip()}"
                     elif head == "closure":
                         parts = rest.split(None, 1)
-                        k = int(parts[0])
+                        k = parts[0] if "." in parts[0] else int(parts[0])
                         tail = parts[1] if len(parts) > 1 else ""
                         if tail.strip() in ("inv", "spec", "extra"):
                             cur = f"closure {k} {tail.strip()}"
@@ -760,10 +802,11 @@ def emit_fn(unit, blk, rel):
     if blk.closures:
         toks_b = body.toks()
         cls = find_closures(toks_b)
-        if max(blk.closures) > len(cls):
-            raise ExtractError(f"lost anchor: contract of {name} converts closure {max(blk.closures)}, body has {len(cls)}")
+        if max(k for k in blk.closures if isinstance(k, int)) > len(cls):
+            raise ExtractError(f"lost anchor: contract of {name} converts closure {max(k for k in blk.closures if isinstance(k, int))}, body has {len(cls)}")
         edits = []
-        for k in sorted(blk.closures):
+        top = sorted(k for k in blk.closures if isinstance(k, int))
+        for k in top:
             (s, po, pc, bs, be) = cls[k - 1]
             ca = blk.closures[k]
             cbody = body.text[toks_b[bs].start:toks_b[be].end]
@@ -771,29 +814,15 @@ def emit_fn(unit, blk, rel):
             if ca.get("mode") == "annotate":
                 # R18: a closure without mutable captures stays a closure; the contract supplies its parameter types,
                 # return name and requires/ensures, tuple patterns become let-bindings; the BODY is verbatim and is verified
-                real_pats = split_top(cparams)
-                decl = split_top(ca.get("params", ""))
-                if len(real_pats) != len(decl):
-                    raise ExtractError(f"lost anchor: closure {k} of {name} has {len(real_pats)} parameters, contract {len(decl)}")
-                binds = ""
-                for pat, d in zip(real_pats, decl):
-                    dn = d.split(":")[0].strip()
-                    pn = pat.split(":")[0].strip() if not pat.strip().startswith("(") else pat.strip()
-                    if pn != dn:
-                        binds += f"let {pn} = {dn}; "
-                mv = "move " if toks_b[s].text == "move" else ""
-                spec = MARK.format(f"closure {k} spec") if f"closure {k} spec" in blk.sections else ""
-                inner = cbody
-                if f"at closure {k} first" in blk.sections:
-                    binds = MARK.format(f"at closure {k} first") + binds
-                rep = f"{mv}|{ca.get('params', '')}| -> {ca['ret']} {spec} {{ {binds}{inner} }}"
+                rep = annotate_closure(blk, k, ca, body.text, toks_b, s, po, pc, bs, be, name, MARK)
                 edits.append((toks_b[s].start, toks_b[be].end, rep))
                 continue
+            cbody = apply_nested_annotations(blk, k, cbody, name, MARK)
             closure_defs.append(make_closure(unit, blk, k, ca, cparams, cbody, body.text, toks_b, s, base))
             edits.append((toks_b[s].start, toks_b[be].end, f"&mut __clo{k}"))
         body.edit(edits, "R9")
         # declare the closure objects right before the statement that contains them
-        for k in sorted(blk.closures):
+        for k in sorted(k for k in blk.closures if isinstance(k, int)):
             if blk.closures[k].get("mode") == "annotate":
                 continue
             toks_b = body.toks()
@@ -862,7 +891,7 @@ def emit_fn(unit, blk, rel):
     emit_marked(unit, blk, final, base)
     unit.functions.append(dict(name=newname, src_fn=name, crate=crate, ctx=ctx, props=props,
                                rules=sorted(set(r for r in body.rules if r)), template=rel,
-                               closures=[blk.closures[k].get("name", f"closure{k}") for k in sorted(blk.closures)]))
+                               closures=[blk.closures[k].get("name", f"closure{k}") for k in sorted(blk.closures, key=str)]))
 
 
 def emit_marked(unit, blk, text, base):
